@@ -115,6 +115,25 @@ def mutants(rng, n_random):
     def f_swapped(E, delta, R, nu, contact_point=0, baseline=0):
         return delta
 
+    def f_later_swapped(delta, R, E, nu, contact_point=0, baseline=0):
+        # (legitimate: only a warning; the wrappers call by keyword)
+        return delta
+    late = ["E", "R", "contact_point", "nu", "baseline"]
+    m = base_module("mut_defaults_reordered_late")
+    m.get_parameter_defaults = defaults_with(late)
+    out.append(("defaults reordered late", m))
+    m = base_module("mut_sig_order_then_defaults_late")
+    m.model_func = f_later_swapped
+    m.get_parameter_defaults = defaults_with(late)
+    out.append(("func args reordered + defaults reordered late", m))
+    m = base_module("mut_sig_order_then_keys_late")
+    m.model_func = f_later_swapped
+    m.parameter_keys = late
+    out.append(("func args reordered + parameter_keys reordered late", m))
+    m = base_module("mut_sig_order_only")
+    m.model_func = f_later_swapped
+    out.append(("func args reordered", m))
+
     def f_short(delta, E, R):
         return delta
 
@@ -386,6 +405,45 @@ def oracle_file_equals_shipped(ctx, tdir):
             model.deregister_model(md)
 
 
+def oracle_anc_keys(ctx):
+    """get_anc_parm_keys = common keys + the model's own, for every model, before / during / after a custom model
+    with own ancillaries is registered, queried repeatedly and deregistered"""
+    from nanite import model
+    from nanite.model import core
+    common = list(core.ANCILLARY_COMMON.keys())
+
+    def snapshot():
+        out = {}
+        for k, md in model.models_available.items():
+            own = list(getattr(md.module, "parameter_anc_keys", [])) if md.has_module_ancillaries else []
+            out[k] = (list(md.get_anc_parm_keys()), common + own)
+        return out
+    hist = ["snapshot"]
+    bad = [(k, a, b_) for k, (a, b_) in snapshot().items() if a != b_]
+    m = base_module("anc_keys_model", anc=True)
+    with warnings.catch_warnings():
+        warnings.simplefilter("ignore")
+        md = model.register_model(m)
+        try:
+            for i in range(3):
+                hist.append(f"query {i} with the custom model registered")
+                bad += [(k, a, b_) for k, (a, b_) in snapshot().items() if a != b_]
+                try:
+                    for k in md.get_anc_parm_keys():
+                        md.get_parm_name(k), md.get_parm_unit(k)
+                except BaseException as e:  # noqa
+                    bad.append((m.model_key, f"name/unit lookup raises {e!r}", None))
+        finally:
+            model.deregister_model(md)
+    hist.append("after deregistration")
+    bad += [(k, a, b_) for k, (a, b_) in snapshot().items() if a != b_]
+    ctx.case({"oracle": "ancillary keys"}, nontrivial="anc-keys", bucket="oracle=ancillary-keys")
+    if bad:
+        k, a, b_ = bad[0]
+        ctx.violation("ancillary-keys-inconsistent", f"get_anc_parm_keys of '{k}' = {a}, expected {b_} (common keys + "
+                      "its own) in the history " + " -> ".join(hist), {"history": hist, "observed": a, "expected": b_})
+
+
 def oracle_ancillaries(ctx):
     """ancillary values whose key matches a fit parameter seed its initial value unless NaN;
     also compared with the Lean `seed`"""
@@ -491,6 +549,18 @@ def run(ctx):
                 ctx.violation(f"non-model-error:register:{label.split(' + ')[0]}",
                               f"registering mutant '{label}' raised {got[4:]} instead of a model error",
                               {"input": {"mutant": label, "desc": describe(m)}, "observed": got})
+            # complete and consistent: the keys of get_parameter_defaults are parameter_keys, in order
+            try:
+                pk = list(getattr(m, "parameter_keys"))
+                dk = list(m.get_parameter_defaults().keys())
+                inconsistent = pk != dk
+            except BaseException:  # noqa
+                inconsistent = None
+            if inconsistent and got.startswith("ok"):
+                ctx.violation("inconsistent-model-accepted", f"mutant '{label}' was registered although its "
+                              f"parameter_keys {pk} and the keys of get_parameter_defaults {dk} differ",
+                              {"input": {"mutant": label, "parameter_keys": pk, "defaults": dk}, "observed": got})
+                model.models_available.pop(getattr(m, "model_key", ""), None)
             if got.startswith("err") and after != before:
                 ctx.violation("registry-changed-on-reject", f"mutant '{label}' rejected but registry changed",
                               {"input": {"mutant": label}})
@@ -509,6 +579,7 @@ def run(ctx):
         impl_out += o2
         labels += d2
         # (c) ancillaries
+        oracle_anc_keys(ctx)
         l3, o3 = oracle_ancillaries(ctx)
         lines += l3
         impl_out += o3
